@@ -400,8 +400,10 @@ InModel(h, rts, c) ==
                 [] c.op = "pad" -> c.a.d \in 1 .. nd /\ c.a.l + c.a.r >= 1 /\ c.a.l <= n[c.a.d] /\ c.a.r <= n[c.a.d]
                 [] c.op = "resample" -> c.a.n = n
                 [] c.op = "h5" -> TRUE
-                [] c.op = "xarray" -> FM(h, o).sub = <<>> /\ AllTrue(fo.valid)
-                [] c.op = "vtk" -> nd = 3 /\ MetricXYZ(FR(h, o))
+                (* a SCALAR field with a component label loses it in VTK and xarray (no component axis is written for one      *)
+                (* component): known findings of C16 / C17 (format design), reported there - outside this model                  *)
+                [] c.op = "xarray" -> FM(h, o).sub = <<>> /\ AllTrue(fo.valid) /\ (fo.nv = 1 => fo.lab = <<>>)
+                [] c.op = "vtk" -> nd = 3 /\ MetricXYZ(FR(h, o)) /\ (fo.nv = 1 => fo.lab = <<>>)
                 [] c.op = "ovf" -> nd = 3 /\ MetricXYZ(FR(h, o)) /\ AllTrue(fo.valid) /\ fo.nv > 1     \* C09 states the labels of vector fields only
                 [] OTHER -> FALSE
 
